@@ -249,12 +249,36 @@ func vfFlowServerScenario(tb testing.TB, env *vfEnv, tn int, rnd *rand.Rand) {
 		x := rnd.Intn(100)
 		if blockedW && (k == blockAt || k == blockAt+9) {
 			var s *vfFlowStream
+			if len(d.order) < 6 {
+				// a fresh stream with a small declared Content-Length: the first DATA frame of the
+				// episode exceeds it, so a stream error is raised while the writer is blocked
+				id := nextID
+				nextID += 2
+				decl := rnd.Intn(8)
+				st.writeHeaders(HeadersFrameParam{StreamID: id, BlockFragment: st.encodeHeader(":method", "POST", ":path", "/bw"+strconv.Itoa(int(id)), "content-length", strconv.Itoa(decl)), EndStream: false, EndHeaders: true})
+				d.emit(map[string]any{"e": "open", "s": id, "body": true, "decl": decl})
+				str := &vfFlowStream{id: id, decl: decl}
+				d.strs[id] = str
+				d.order = append(d.order, id)
+				d.sa[id] = d.siw
+				st.sync()
+				st.callsMu.Lock()
+				ncalls := len(st.calls)
+				st.callsMu.Unlock()
+				if ncalls == 0 {
+					str.exited = true
+				} else {
+					str.call = st.nextHandlerCall()
+					s = str
+				}
+				d.settle()
+			}
 			for _, c := range open {
-				if !c.peerEnd && (s == nil || c.decl >= 0 && s.decl < 0) {
+				if s == nil && !c.peerEnd && !c.exited {
 					s = c
 				}
 			}
-			if s == nil {
+			if s == nil || d.dead {
 				blockAt++
 				continue
 			}
